@@ -12,8 +12,8 @@ Open Scope Z_scope.
 Inductive acc : Type :=
 | ACount (n : Z) (cond : option expr)
 | ASum (total : f64) (e : expr)
-| AMin (m : f64) (e : expr)
-| AMax (m : f64) (e : expr)
+| AMin (m : f64) (mi : option Z) (e : expr)     (* float candidates; the integers, kept exactly (fix b2f85e2) *)
+| AMax (m : f64) (mi : option Z) (e : expr)
 | AAvg (total : f64) (n : Z) (e : expr)
 | ADistinct (seen : list value) (e : expr)
 | APct (vals : list f64) (p : f64) (e : expr).   (* CKMS sketch: contents only *)
@@ -22,8 +22,8 @@ Definition acc_empty (f : aggfn) : acc :=
   match f with
   | FCount c => ACount 0 c
   | FSum e => ASum f_zero e
-  | FMin e => AMin f_inf e
-  | FMax e => AMax f_neg_inf e
+  | FMin e => AMin f_inf None e
+  | FMax e => AMax f_neg_inf None e
   | FAvg e => AAvg f_zero 0 e
   | FDistinct e => ADistinct [] e
   | FPct p e => APct [] p e
@@ -32,6 +32,30 @@ Definition acc_empty (f : aggfn) : acc :=
 Definition ok_or {A} (r : res A) (d : A) (k : A -> acc) (same : acc) : acc :=
   match r with Ok x => k x | _ => same end.
 
+(** an integer argument (or text holding one) of min / max is tracked as an integer *)
+Definition exact_int_of (r : res value) : option Z :=
+  match r with
+  | Ok (VInt i) => Some i
+  | Ok (VStr s) => match from_string s with VInt i => Some i | _ => None end
+  | _ => None
+  end.
+(** [Ord::min] / [Ord::max] on values *)
+Definition vmin (a b : value) : value := match vcmp b a with Lt => b | _ => a end.
+Definition vmax (a b : value) : value := match vcmp b a with Lt => a | _ => b end.
+Definition minmax_emit (is_min : bool) (m : f64) (mi : option Z) : value :=
+  match m, is_min with
+  | S754_infinity true, true => VNone        (* as before the fix: an infinite extremum is not reported *)
+  | S754_infinity false, false => VNone
+  | _, _ =>
+      let of_floats := if f_is_finite m then Some (from_float m) else None in
+      match mi, of_floats with
+      | Some i, Some f => if is_min then vmin (VInt i) f else vmax (VInt i) f
+      | Some i, None => VInt i
+      | None, Some f => f
+      | None, None => VNone
+      end
+  end.
+
 (** [AggregateFunction::process]; an evaluation error leaves the state as is *)
 Definition acc_step (a : acc) (d : data) : acc :=
   match a with
@@ -39,8 +63,22 @@ Definition acc_step (a : acc) (d : data) : acc :=
   | ACount n (Some c) =>
       match eval_bool c d with Ok true => ACount (n + 1) (Some c) | _ => a end
   | ASum t e => match eval_f64 e d with Ok v => ASum (fadd t v) e | _ => a end
-  | AMin m e => match eval_f64 e d with Ok v => if fltb v m then AMin v e else a | _ => a end
-  | AMax m e => match eval_f64 e d with Ok v => if fltb m v then AMax v e else a | _ => a end
+  | AMin m mi e =>
+      match eval_f64 e d with
+      | Ok v => match exact_int_of (eval e d) with
+                | Some i => AMin m (Some (match mi with Some s => Z.min i s | None => i end)) e
+                | None => if fltb v m then AMin v mi e else a
+                end
+      | _ => a
+      end
+  | AMax m mi e =>
+      match eval_f64 e d with
+      | Ok v => match exact_int_of (eval e d) with
+                | Some i => AMax m (Some (match mi with Some s => Z.max i s | None => i end)) e
+                | None => if fltb m v then AMax v mi e else a
+                end
+      | _ => a
+      end
   | AAvg t n e => match eval_f64 e d with Ok v => AAvg (fadd t v) (n + 1) e | _ => a end
   | ADistinct seen e =>
       match eval e d with
@@ -56,7 +94,7 @@ Definition acc_unm (a : acc) (d : data) : bool :=
   match a with
   | ACount _ None => false
   | ACount _ (Some c) => isunm (eval_bool c d)
-  | ASum _ e | AMin _ e | AMax _ e | AAvg _ _ e | APct _ _ e => isunm (eval_f64 e d)
+  | ASum _ e | AMin _ _ e | AMax _ _ e | AAvg _ _ e | APct _ _ e => isunm (eval_f64 e d)
   | ADistinct _ e => isunm (eval e d)
   end.
 
@@ -65,8 +103,8 @@ Definition acc_emit (a : acc) : res value :=
   match a with
   | ACount n _ => Ok (VInt n)
   | ASum t _ => Ok (from_float t)
-  | AMin m _ => Ok (if f_is_finite m then from_float m else VNone)
-  | AMax m _ => Ok (if f_is_finite m then from_float m else VNone)
+  | AMin m mi _ => Ok (minmax_emit true m mi)
+  | AMax m mi _ => Ok (minmax_emit false m mi)
   | AAvg t n _ => Ok (from_float (fdiv t (f_of_Z n)))
   | ADistinct seen _ => Ok (VInt (Z.of_nat (length seen)))
   | APct [] _ _ => Ok VNone
@@ -177,7 +215,9 @@ Fixpoint ordering_ref (cols : list str) (l r : data) : comparison :=
 
 Definition sort_cmp (s : sorter) (l r : data) : comparison :=
   let prim := if s_desc s then ordering (s_keys s) r l else ordering (s_keys s) l r in
-  cmp_then prim (ordering_ref (s_cols s) l r).
+  (* the tie-break by all columns is ascending, except for a keyless [sort desc] (fix 2c51787) *)
+  cmp_then prim (if s_desc s && match s_keys s with [] => true | _ => false end
+                 then ordering_ref (s_cols s) r l else ordering_ref (s_cols s) l r).
 
 Definition s_emit (s : sorter) : table :=
   mkT (s_cols s) (isort (fun a b => cmp_le (sort_cmp s a b)) (s_rows s)).
@@ -264,8 +304,11 @@ Definition implicit_sort (fns : list (str * aggfn)) (keys : list (str * expr)) :
   let is_ts (ke : str * expr) :=
     match snd ke with ECol h [] => str_eqb h ts | _ => false end in
   let cols := map (fun nf => ECol (fst nf) []) fns in
-  if existsb is_ts keys then SSort (ECol ts [] :: cols) false
-  else SSort cols true.
+  (* the time column is named after the text its key was written with (fix af5ecd9) *)
+  match find is_ts keys with
+  | Some ke => SSort (ECol (fst ke) [] :: cols) false
+  | None => SSort cols true
+  end.
 
 Definition mk_aggop (s : stage) : aggop :=
   match s with
@@ -423,10 +466,17 @@ Fixpoint run_agg_rest (t : table) (rest : list aggop) : res table :=
       run_agg_rest t' rest'
   end.
 
+(** the line without its terminator: what the filter looks at (fix 0a8f710) *)
+Definition chomp (l : str) : str :=
+  match rev l with
+  | 10%N :: r => rev r
+  | _ => l
+  end.
+
 Definition run_pipeline (filter_ok : str -> bool) (stages : list stage) (lines : list str)
   : run_result :=
   let '(pre, post) := compile stages in
-  let recs := map (fun l => mkRec [] l) (filter filter_ok lines) in
+  let recs := map (fun l => mkRec [] l) (filter (fun l => filter_ok (chomp l)) lines) in
   let st := run_preagg pre recs in
   if b_panic (p_bad st) then mkRun Panic (p_err st)
   else if b_unm (p_bad st) then mkRun Unm (p_err st)
